@@ -50,6 +50,20 @@ func c16Gen(r *rand.Rand, tier string) []Case {
 		n = 300
 	}
 	var out []Case
+	// fixed cases: amounts at the edge of the liquid balance while rewards are pending on the same validator (the native
+	// message pays the rewards out before it takes the coins), for every method that moves the delegation
+	for k := 1; k <= 2; k++ {
+		c := Case{"freset", fmt.Sprintf("fork # k=%d m=delegate val=0 amt=5000000000000000000", k), "adv # dt=50000"}
+		for _, m := range []string{"delegate", "undelegate", "redelegate", "delegate"} {
+			amt := "bal+1"
+			if m != "delegate" {
+				amt = "staked/2"
+			}
+			c = append(c, fmt.Sprintf("fork # k=%d m=%s val=0 dst=1 amt=%s", k, m, amt), "adv # dt=30000", fmt.Sprintf("fork # k=%d m=delegate val=0 amt=bal", k), "adv # dt=30000")
+		}
+		c = append(c, fmt.Sprintf("fork # k=%d m=withdrawDelegatorRewards val=0", k), fmt.Sprintf("fork # k=%d m=delegate val=0 amt=bal+1", k))
+		out = append(out, c)
+	}
 	for i := 0; i < n; i++ {
 		c := Case{"freset"}
 		for k := 1; k <= 3; k++ {
